@@ -19,7 +19,7 @@ for ID in "$@"; do
     sed "s#path = \"/repo\"#path = \"$WT\"#" /verif/harness/Cargo.toml > $H/Cargo.toml
     cp /verif/harness/.cargo/config.toml $H/.cargo/config.toml
     res="SURVIVED"
-    for C in $(echo $CHECKS | cut -d" " -f1-3); do
+    for C in $(echo $CHECKS | cut -d" " -f1-4); do
       cd /verif && VERIF_DEV_HARNESS=$H VERIF_DEV_OUT=$OUT timeout 1500 ./check $C --tier quick > /tmp/mut_check_$SLOT.out 2>&1
       rc=$?
       if [ $rc = 1 ]; then res="caught"; by=$C; break; fi
